@@ -2509,8 +2509,8 @@ func (c *compiler) VisitWhileStmt(s *ast.WhileStmt) ast.VisitResult {
 		leaveBlock := c.cf.NewBlock("")
 		c.cbb, c.scp = condBlock, c.exitScope(c.scp) // the condition is not in scope
 		c.commentNode(c.cbb, s, "")
-		c.cbb.NewCondBr( // while counter != 0, execute body
-			c.cbb.NewICmp(enum.IPredNE, c.cbb.NewLoad(ddpint, counter), zero),
+		c.cbb.NewCondBr( // while counter > 0, execute body (a negative count means no repetition at all)
+			c.cbb.NewICmp(enum.IPredSGT, c.cbb.NewLoad(ddpint, counter), zero),
 			body,
 			leaveBlock,
 		)
